@@ -32,6 +32,13 @@ static void *verif_memcpy(void *dst, const void *src, size_t n) {
   }
   return dst;
 }
+/* std::copy over bytes: as memcpy, element order irrelevant for disjoint ranges */
+static unsigned char *X_copy__unsigned_char_ptr_unsigned_char_ptr_unsigned_char_ptr(unsigned char *f, unsigned char *l, unsigned char *o) {
+  __CPROVER_assert(__CPROVER_same_object(f, l) && f <= l, "std::copy: valid source range");
+  size_t n = (size_t)(l - f);
+  verif_memcpy(o, f, n);
+  return o + n;
+}
 #define malloc(n) verif_malloc(n)
 #define free(p) verif_free(p)
 #define realloc(p, n) verif_realloc(p, n)
